@@ -231,6 +231,18 @@ Definition check_simtime (c : sim_case) : list Z :=
 
 Definition check_sim_all (c : sim_case) : list Z := check_sim c ++ oracle_sim c ++ check_simtime c.
 
+(* ---------- C12, the exact half: with ticks that cost no real time (the virtual-time loop) every
+   master tick (simulation time t, real time r) has t = initial + speed * r, within the whole-ns
+   rounding of the float arithmetic (4 ns per tick so far).  97: it does not *)
+Fixpoint exact_pacing (num den initial : Z) (k : Z) (l : list (Z * Z)) : bool :=
+  match l with
+  | [] => true
+  | (t, r) :: rest =>
+      Z.leb (Z.abs ((t - initial) * den - r * num)) (4 * (k + 1) * Z.max num den) && exact_pacing num den initial (k + 1) rest
+  end.
+Definition check_exact (c : sim_case) : list Z :=
+  check_sim c ++ (if exact_pacing (sc_num c) (sc_den c) (sc_initial c) 0 (sc_mticks c) then [] else [97]).
+
 (* ---------- pairs of runs: nested vs its flattening (C09), base vs base + disconnected part (C10) *)
 Definition pair_case := (sim_case * sim_case)%type.
 
